@@ -3,6 +3,7 @@ import VC2.Model.BitIODriver
 import VC2.Model.WaveletDriver
 import VC2.Model.ConstraintDriver
 import VC2.Model.SymReDriver
+import VC2.Model.FixedDictDriver
 open VC2 VC2.Gen
 
 def parseInts (ws : List String) : Option (List Int) :=
@@ -29,6 +30,7 @@ def step (line : String) : String :=
   | "wr" :: rest => VC2.Model.BitIO.handleIO "wr" rest
   | "wt" :: rest => VC2.Model.Wavelet.handleWt rest
   | "re" :: rest => VC2.Model.SymRe.handleRe rest
+  | "fd" :: rest => VC2.Model.FixedDict.handleFd rest
   | "vs" :: rest => VC2.Model.Constraint.handleVs rest
   | "ct" :: rest => VC2.Model.Constraint.handleCt rest
   | _ => "bad-op"
